@@ -26,67 +26,26 @@ Definition i2 (op s0 s1 d : Z) := mkInst F_SOP2 op s0 s1 (-1) d 0 0.
 Definition i1 (op s0 d : Z) := mkInst F_SOP1 op s0 (-1) (-1) d 0 0.
 Definition ik (op k d : Z) := mkInst F_SOPK op (-1) (-1) (-1) d k 0.
 
-(** GCN3 ALU, SOP2 *)
-Lemma g_sub_u32 : refuted GCN3 F_SOP2 1 false.      (* SCC never cleared *)
-Proof. refute (wst [(0, 5); (1, 3)] 1 0 0) (i2 1 0 1 2). Qed.
-Lemma g_add_i32 : refuted GCN3 F_SOP2 2 false.      (* SCC = unsigned carry instead of signed overflow *)
-Proof. refute (wst [(0, 2147483647); (1, 1)] 0 0 0) (i2 2 0 1 2). Qed.
-Lemma g_addc_u32 : refuted GCN3 F_SOP2 4 false.     (* carry wrong when S0+S1+SCC = 2^32-1 *)
-Proof. refute (wst [(0, 4294967295); (1, 0)] 0 0 0) (i2 4 0 1 2). Qed.
-Lemma g_min_i32 : refuted GCN3 F_SOP2 6 false.      (* SCC never cleared *)
-Proof. refute (wst [(0, 5); (1, 3)] 1 0 0) (i2 6 0 1 2). Qed.
-Lemma g_min_u32 : refuted GCN3 F_SOP2 7 false.
-Proof. refute (wst [(0, 5); (1, 3)] 1 0 0) (i2 7 0 1 2). Qed.
-Lemma g_max_i32 : refuted GCN3 F_SOP2 8 false.
-Proof. refute (wst [(0, 3); (1, 5)] 1 0 0) (i2 8 0 1 2). Qed.
-Lemma g_max_u32 : refuted GCN3 F_SOP2 9 false.
-Proof. refute (wst [(0, 3); (1, 5)] 1 0 0) (i2 9 0 1 2). Qed.
-Lemma g_ashr_i32 : refuted GCN3 F_SOP2 32 false.    (* shift amount not masked to S1[4:0] *)
-Proof. refute (wst [(0, 1073741824); (1, 32)] 0 0 0) (i2 32 0 1 2). Qed.
-Lemma g_mul_i32 : refuted GCN3 F_SOP2 36 false.     (* writes SCC on overflow *)
-Proof. refute (wst [(0, 65536); (1, 65536)] 0 0 0) (i2 36 0 1 2). Qed.
-Lemma g_bfe_i32 : refuted GCN3 F_SOP2 38 false.     (* no sign extension *)
-Proof. refute (wst [(0, 240); (1, 262148)] 0 0 0) (i2 38 0 1 2). Qed.
-(** GCN3 ALU, SOP1 / SOPK *)
-Lemma g_not_b32 : refuted GCN3 F_SOP1 4 false.      (* SCC from the 64-bit complement, never cleared *)
-Proof. refute (wst [(0, 4294967295)] 0 0 0) (i1 4 0 2). Qed.
-Lemma g_getpc : refuted GCN3 F_SOP1 28 false.       (* PC of the next instruction + 4 *)
-Proof. refute (wst [] 0 0 0) (i1 28 0 2). Qed.
-Lemma g_cmpk_eq : refuted GCN3 F_SOPK 2 false.      (* compares the low 16 bits only *)
-Proof. refute (wst [(2, 65541)] 0 0 0) (ik 2 5 2). Qed.
-Lemma g_cmpk_lg : refuted GCN3 F_SOPK 3 false.
-Proof. refute (wst [(2, 65541)] 0 0 0) (ik 3 5 2). Qed.
-(** CDNA3 ALU *)
-Lemma c_bfe_i32 : refuted CDNA3 F_SOP2 38 false.    (* offset+width > 32 on a negative source *)
-Proof. refute (wst [(0, 2147483648); (1, 2097156)] 0 0 0) (i2 38 0 1 2). Qed.
-Lemma c_not_b32 : refuted CDNA3 F_SOP1 4 false.
-Proof. refute (wst [(0, 4294967295)] 0 0 0) (i1 4 0 2). Qed.
+(** CDNA3 ALU: the pinned test TestSOP1Opcode48SABSI32 asserts this behaviour, so
+    the handler was left as it is *)
 Lemma c_abs_i32 : refuted CDNA3 F_SOP1 48 false.    (* SCC = (S0 < 0) instead of (D != 0) *)
 Proof. refute (wst [(0, 5)] 0 0 0) (i1 48 0 2). Qed.
-Lemma c_movk : refuted CDNA3 F_SOPK 0 false.        (* immediate zero- instead of sign-extended *)
-Proof. refute (wst [] 0 0 0) (ik 0 65535 2). Qed.
-Lemma c_cmovk : refuted CDNA3 F_SOPK 1 false.
-Proof. refute (wst [] 1 0 0) (ik 1 65535 2). Qed.
-(** operands that ReadOperand delivers with 64 bits (wide) *)
+(** negative inline constants arrive as 64-bit values (uint64(int64(-k))) and
+    some 32-bit handlers use all 64 bits *)
 Lemma g_lshr_b32_wide : refuted GCN3 F_SOP2 30 true. (* s_lshr_b32 s2, -1, 1 *)
 Proof. refute (wst [] 0 0 0) (i2 30 193 129 2). Qed.
-Lemma g_sub_u32_wide : refuted GCN3 F_SOP2 1 true.
-Proof. refute (wst [(1, 4294967295)] 0 0 0) (i2 1 1 193 2). Qed.
-Lemma c_min_u32_wide : refuted CDNA3 F_SOP2 7 true.  (* s_min_u32 s2, vcc_lo, s1 *)
-Proof. refute (wst [(1, 5)] 0 4294967297 0) (i2 7 106 1 2). Qed.
+Lemma c_min_u32_wide : refuted CDNA3 F_SOP2 7 true.  (* s_min_u32 s2, -5, s1 with s1 = 0xffffffff *)
+Proof. refute (wst [(1, 4294967295)] 0 0 0) (i2 7 197 1 2). Qed.
 Lemma c_mul_hi_wide : refuted CDNA3 F_SOP2 44 true.  (* s_mul_hi_u32 s2, -1, s1 *)
 Proof. refute (wst [(1, 2)] 0 0 0) (i2 44 193 1 2). Qed.
 
-(** VCC_HI as a 32-bit source is read as the whole VCC (low half is used);
-    EXEC_HI as a source and EXEC_LO as a 32-bit destination panic *)
+(** VCCZ / EXECZ as source operands panic ("Register type not supported") *)
 Definition operand_refuted (a : arch) (s0 d : Z) : Prop :=
   exists st, wf st /\ ~ agree a st (i1 0 s0 d).
 Ltac orefute st :=
   exists st; split; [apply wf_wst; [reflexivity| auto | unfold W64; lia | unfold W64; lia]|];
   apply differs_not_agree; vm_compute; reflexivity.
-Lemma g_vcc_hi_src : operand_refuted GCN3 107 2. Proof. orefute (wst [] 0 4294967298 0). Qed.
-Lemma c_vcc_hi_src : operand_refuted CDNA3 107 2. Proof. orefute (wst [] 0 4294967298 0). Qed.
-Lemma g_exec_hi_src : operand_refuted GCN3 127 2. Proof. orefute (wst [] 0 0 4294967298). Qed.
-Lemma c_exec_hi_src : operand_refuted CDNA3 127 2. Proof. orefute (wst [] 0 0 4294967298). Qed.
-Lemma g_exec_lo_dst : operand_refuted GCN3 0 126. Proof. orefute (wst [(0, 7)] 0 0 0). Qed.
-Lemma c_exec_lo_dst : operand_refuted CDNA3 0 126. Proof. orefute (wst [(0, 7)] 0 0 0). Qed.
+Lemma g_vccz_src : operand_refuted GCN3 251 2. Proof. orefute (wst [] 0 0 0). Qed.
+Lemma c_vccz_src : operand_refuted CDNA3 251 2. Proof. orefute (wst [] 0 0 0). Qed.
+Lemma g_execz_src : operand_refuted GCN3 252 2. Proof. orefute (wst [] 0 0 0). Qed.
+Lemma c_execz_src : operand_refuted CDNA3 252 2. Proof. orefute (wst [] 0 0 0). Qed.
